@@ -17,10 +17,10 @@ Conventions
 * The bucket hash `x & mask` is a parameter `bk : Nat → Nat`; the theorems hold for every `bk`
   (the hash only speeds up the search, it never changes the verdict).
 * Loops without a syntactic bound get a fuel argument; running out of fuel is the distinct
-  outcome `Err.hang`. For Cuckatoo / Cuckaroo / Cuckarooz / Cuckaroom `hang` is never returned
-  (lemmas in `Lemmas/Pow*.lean`); for **Cuckarood** the Rust loop really does not terminate on
-  some inputs (the walk is deterministic on `2·size` slots, so not being back at slot 0 after
-  `2·size + 1` steps means never) — see `Props/C05.lean`, `cuckarood_hang_example`.
+  outcome `Err.hang`. History: the Cuckarood walk originally had no bound at all and did not
+  terminate on some inputs (found by this model: fuel exhausted; confirmed on the real code);
+  /repo commit df0049399 added `if n >= size { Err("cycle does not close") }`, modelled by
+  `roodWalk` / `Err.noClose`.
 -/
 namespace GV.Pow
 
@@ -131,6 +131,7 @@ inductive Err
   | branch        -- "branch in cycle"
   | deadEnd       -- "cycle dead ends"
   | tooShort      -- "cycle too short"
+  | noClose       -- "cycle does not close" (Cuckarood, since the repair of its endless walk)
   | hang          -- fuel exhausted
   deriving DecidableEq, Repr, Inhabited
 
@@ -144,7 +145,7 @@ instance : DecidableEq (Except Err Unit)
 def Err.name : Err → String
   | .wrongLen => "wronglen" | .tooBig => "toobig" | .notAscending => "notasc"
   | .notBalanced => "notbal" | .noMatch => "nomatch" | .branch => "branch"
-  | .deadEnd => "deadend" | .tooShort => "tooshort" | .hang => "hang"
+  | .deadEnd => "deadend" | .tooShort => "tooshort" | .noClose => "noclose" | .hang => "hang"
 
 /-- verifier context: `global::proofsize()`, `params.edge_mask`, `params.proof_size`
 (only Cuckarooz reads the latter, in its last comparison), and the bucket hash `& mask` -/
@@ -286,9 +287,9 @@ def uBuild (C : UCfg) (P : Params) (ep : Nat → Nat × Nat) : List Nat → Nat 
       uBuild C P ep xs (n+1) (some x)
         { uvs := uvs2, prev := prev2, head := head2, x0 := s.x0 ^^^ u, x1 := s.x1 ^^^ v }
 
-/-- `if prev[a] == 2*size { prev[a] = v }` -/
-def circ1 (nil : Nat) (prev : Nat → Nat) (a v : Nat) : Nat → Nat :=
-  upd prev a (if prev a = nil then v else prev a)
+/-- new value of `prev[a]` in `if prev[a] == 2*size { prev[a] = v }` -/
+def circVal (nil : Nat) (prev : Nat → Nat) (a v : Nat) : Nat :=
+  if prev a = nil then v else prev a
 
 /-- "make prev lists circular": `for n in 0..size { if prev[2n] == 2*size {..}; if prev[2n+1] == 2*size {..} }` -/
 def uCirc (C : UCfg) (P : Params) (size : Nat) (s : USt) : Nat → (Nat → Nat) → (Nat → Nat)
@@ -296,8 +297,10 @@ def uCirc (C : UCfg) (P : Params) (size : Nat) (s : USt) : Nat → (Nat → Nat)
   | m+1, prev =>
     -- iteration n = size - (m+1)
     let n := size - (m+1)
-    let prev := circ1 (2*size) prev (2*n) (s.head (C.key P.bk 0 (s.uvs (2*n))))
-    let prev := circ1 (2*size) prev (2*n+1) (s.head (C.key P.bk 1 (s.uvs (2*n+1))))
+    let x := circVal (2*size) prev (2*n) (s.head (C.key P.bk 0 (s.uvs (2*n))))
+    let prev := upd prev (2*n) x
+    let y := circVal (2*size) prev (2*n+1) (s.head (C.key P.bk 1 (s.uvs (2*n+1))))
+    let prev := upd prev (2*n+1) y
     uCirc C P size s m prev
 
 /-- inner `loop { k = prev[k]; if k == i {break}; if match { if j != i {branch}; j = k } }` -/
@@ -400,6 +403,19 @@ def roodStep (P : Params) (size : Nat) (s : RoodSt) (i : Nat) : Except Err Nat :
   | .error e => .error e
   | .ok j => if j = i then .error .deadEnd else .ok (j ^^^ 1)
 
+/-- Cuckarood's outer loop: as `uWalk`, plus `if n >= size { return Err("cycle does not close") }`
+after the `i == 0` test (added by the repair of the endless walk: the step map of this variant is
+not injective, so a walk can fall into a loop that excludes slot 0) -/
+def roodWalk (step : Nat → Except Err Nat) (size : Nat) : Nat → Nat → Nat → Except Err Nat
+  | 0, _, _ => .error .hang
+  | f+1, i, n =>
+    match step i with
+    | .error e => .error e
+    | .ok i' =>
+      if i' = 0 then .ok (n+1)
+      else if n + 1 ≥ size then .error .noClose
+      else roodWalk step size f i' (n+1)
+
 def verifyCuckarood (P : Params) (ep : Nat → Nat × Nat) (nonces : List Nat) : Except Err Unit :=
   let size := nonces.length
   if size ≠ P.proofsize then .error .wrongLen
@@ -409,7 +425,7 @@ def verifyCuckarood (P : Params) (ep : Nat → Nat × Nat) (nonces : List Nat) :
     | .ok s =>
       if (s.x0 ||| s.x1) ≠ 0 then .error .noMatch
       else
-        match uWalk (roodStep P size s) (2*size+1) 0 0 with
+        match roodWalk (roodStep P size s) size (size+1) 0 0 with
         | .error e => .error e
         | .ok n => if n = size then .ok () else .error .tooShort
 
